@@ -209,7 +209,9 @@ impl Ctx {
             let (q, e) = Question::<NameBuf>::split_message_bytes(&msg[12..], pos - 12).map_err(|_| ())?;
             Ok((q.qname.as_bytes().to_vec(), q.qtype.code.get(), q.qclass.code.get(), e + 12))
         }));
-        self.out.oracle_case(&tag, oq.is_ok() || nq.is_ok(), "item:question");
+        self.out.case(&format!("nquestion {} {}", hex(&msg[12..]), pos - 12),
+            &match &nq { Ok((w, t, c, e)) => format!("Ok {} {} {} {}", hex(w), t, c, e - 12), Err(true) => "Panic".into(), Err(false) => "Err".into() },
+            oq.is_ok() || nq.is_ok(), "item:question");
         match (&oq, &nq) {
             (Err(true), _) => self.verdict(false, "panic_old", &tag, "old Question::parse panicked"),
             (_, Err(true)) => self.verdict(false, "panic_new", &tag, "new Question::split_message_bytes panicked"),
@@ -231,7 +233,9 @@ impl Ctx {
             let rd: &[u8] = r.rdata;
             Ok((r.rname.as_bytes().to_vec(), r.rtype.code.get(), r.rclass.code.get(), r.ttl.value.get(), rd.to_vec(), e + 12))
         }));
-        self.out.oracle_case(&tag, or.is_ok() || nr.is_ok(), "item:record");
+        self.out.case(&format!("nrecord {} {}", hex(&msg[12..]), pos - 12),
+            &match &nr { Ok((w, t, c, ttl, rd, e)) => format!("Ok {} {} {} {} {} {}", hex(w), t, c, ttl, e - 12 - rd.len(), e - 12), Err(true) => "Panic".into(), Err(false) => "Err".into() },
+            or.is_ok() || nr.is_ok(), "item:record");
         match (&or, &nr) {
             (Err(true), _) => self.verdict(false, "panic_old", &tag, "old ParsedRecord::parse panicked"),
             (_, Err(true)) => self.verdict(false, "panic_new", &tag, "new Record::split_message_bytes panicked"),
@@ -780,6 +784,15 @@ fn edns_new(msg: &[u8], pos: usize) -> [Result<Option<Edns>, bool>; 3] {
     [a, b, c]
 }
 
+/// T2: EdnsRecord::<&Opt>::split_bytes on raw octets against the model
+fn edns_t2(cx: &mut Ctx, b: &[u8], kind: &str) {
+    use domain::new::base::wire::SplitBytes;
+    let bb = b.to_vec();
+    let r = catch(move || EdnsRecord::<&Opt>::split_bytes(&bb).map(|(e, rest)| (edns_of_new(&e), rest.len())).map_err(|_| ()));
+    let obs = match r { Ok(Ok((e, rl))) => format!("Ok {} {} {} {} {} {}", e.udp, e.ext, e.ver, e.flags, hex(&e.data), rl), Ok(Err(())) => "Err".to_string(), Err(_) => "Panic".to_string() };
+    cx.out.case(&format!("edns {}", hex(b)), &obs, obs.starts_with("Ok"), kind);
+}
+
 fn edns_compare(cx: &mut Ctx, tag: &str, who: &str, want: &Edns, got: &Result<Option<Edns>, bool>) {
     match got {
         Err(true) => cx.verdict(false, if who.starts_with("old") { "panic_old" } else { "panic_new" }, tag, &format!("{} panicked", who)),
@@ -808,6 +821,8 @@ fn edns_one(cx: &mut Ctx, want: &Edns, rcode: u8, with_q: bool, opts: &[(u16, Ve
     m.extend_from_slice(&[0, 0, 41]); m.extend_from_slice(&want.udp.to_be_bytes());
     m.extend_from_slice(&[want.ext, want.ver]); m.extend_from_slice(&want.flags.to_be_bytes());
     m.extend_from_slice(&(want.data.len() as u16).to_be_bytes()); m.extend_from_slice(&want.data);
+    edns_t2(cx, &m[pos..], "edns:t2");
+    { let mut x = m[pos..].to_vec(); x.extend_from_slice(&[1, 2, 3]); edns_t2(cx, &x, "edns:t2"); }
     edns_compare(cx, &tag, "old<-wire", want, &edns_old(&m));
     for (w, r) in ["new(parser)<-wire", "new(try_from)<-wire", "new(split_bytes)<-wire"].iter().zip(edns_new(&m, pos).iter()) { edns_compare(cx, &tag, w, want, r); }
     // (2) built by the new MessageBuilder::push_edns
@@ -881,6 +896,22 @@ fn edns_cases(cx: &mut Ctx, rng: &mut Rng, scale: usize) {
         let want = Edns { udp: *rng.pick(&[0u16, 512, 1232, 4096, 65535, 1400]), ext: if rng.chance(1, 2) { rng.u8() } else { rng.below(3) as u8 }, ver: if rng.chance(1, 2) { rng.u8() } else { rng.below(2) as u8 }, flags, do_: flags & 0x8000 != 0, data: opt_bytes(&os) };
         edns_one(cx, &want, rng.below(16) as u8, rng.chance(1, 2), &os);
     }
+    // raw octets around a valid record: truncations, wrong prefix, wrong sizes
+    for _ in 0..150 * scale {
+        let os: Vec<(u16, Vec<u8>)> = (0..rng.below(3)).map(|_| { let k = rng.below(6) as usize; (rng.u16(), rng.bytes(k)) }).collect();
+        let d = opt_bytes(&os);
+        let mut b = vec![0u8, 0, 41]; b.extend_from_slice(&rng.u16().to_be_bytes()); b.push(rng.u8()); b.push(rng.u8()); b.extend_from_slice(&rng.u16().to_be_bytes());
+        b.extend_from_slice(&(d.len() as u16).to_be_bytes()); b.extend_from_slice(&d);
+        match rng.below(6) {
+            0 => { let k = rng.below(b.len() as u64 + 1) as usize; b.truncate(k); }
+            1 => { let i = rng.below(3) as usize; b[i] = b[i].wrapping_add(1); }
+            2 => { let i = 9 + rng.below(2) as usize; b[i] = b[i].wrapping_add(rng.range(1, 3) as u8); }
+            3 => { if b.len() > 13 { let i = 11 + rng.below((b.len() - 11) as u64) as usize; b[i] = b[i].wrapping_add(1); } }
+            4 => { let k = rng.below(5) as usize; b.extend(rng.bytes(k)); }
+            _ => {}
+        }
+        edns_t2(cx, &b, "edns:t2");
+    }
     // malformed option framing: both codecs must refuse the record alike
     for tail in [vec![0u8, 10, 0, 9, 1, 2], vec![0, 10, 0], vec![0, 10, 0, 0, 0], vec![0, 10, 255, 255]] {
         cx.idx += 1;
@@ -889,6 +920,7 @@ fn edns_cases(cx: &mut Ctx, rng: &mut Rng, scale: usize) {
         m.extend_from_slice(&[0, 0, 41, 4, 208, 1, 0, 0x80, 0]); m.extend_from_slice(&(tail.len() as u16).to_be_bytes()); m.extend_from_slice(&tail);
         let tag = format!("edns-raw {}", hex(&m));
         cx.out.oracle_case(&tag, true, "edns:malformed");
+        edns_t2(cx, &m[pos..], "edns:t2");
         let o = edns_old(&m); let n = edns_new(&m, pos);
         let o_ok = matches!(o, Ok(Some(_)));
         for (w, r) in ["parser", "try_from", "split_bytes"].iter().zip(n.iter()) {
@@ -905,7 +937,7 @@ fn edns_cases(cx: &mut Ctx, rng: &mut Rng, scale: usize) {
 /// octets written.  Oracle: every name reads back (both readers) as pushed.
 fn bim_case(cx: &mut Ctx, base: usize, names: &[Vec<Vec<u8>>], kind: &str) { bim_case_x(cx, base, names, kind, false); bim_case_x(cx, base, names, kind, true); }
 
-/// `rev`: the names are written as RevNameBuf (compress_revname); oracle only, no model counterpart
+/// `rev`: the names are written as RevNameBuf (compress_revname; T2 kind `bimrev`)
 fn bim_case_x(cx: &mut Ctx, base: usize, names: &[Vec<Vec<u8>>], kind: &str, rev: bool) {
     cx.idx += 1;
     if !cx.out.wants(cx.idx) { return; }
@@ -927,12 +959,12 @@ fn bim_case_x(cx: &mut Ctx, base: usize, names: &[Vec<Vec<u8>>], kind: &str, rev
     });
     match r {
         Err(p) => {
-            if rev { cx.out.oracle_case(&case, true, &format!("{}:rev", kind)); } else { cx.out.case(&case, "Panic", true, kind); }
-            let cls = if p.contains("overflow") { "new_compressor_pointer_overflow" } else if p.contains("valid last label") { "new_compressor_label_boundary_panic" } else { "panic_new_builder" };
+            cx.out.case(&case, "Panic", true, &if rev { format!("{}:rev", kind) } else { kind.to_string() });
+            let cls = if p.contains("overflow") { "new_compressor_pointer_overflow" } else if p.contains("valid last label") { "new_compressor_label_boundary_panic" } else if p.contains("left != right") || p.contains("assertion") { "new_compressor_unused_slot_debug_assert" } else { "panic_new_builder" };
             cx.verdict(false, cls, &case, &p);
         }
         Ok((buf, starts)) => {
-            if rev { cx.out.oracle_case(&case, true, &format!("{}:rev", kind)); } else { cx.out.case(&case, &format!("Ok {}", hex(&buf[12 + base..])), true, kind); }
+            cx.out.case(&case, &format!("Ok {}", hex(&buf[12 + base..])), true, &if rev { format!("{}:rev", kind) } else { kind.to_string() });
             let bad = if rev { "new_revname_compressor_bad_pointer" } else { "new_compressor_bad_pointer" };
             for (w, st) in wires.iter().zip(starts.iter()) {
                 let n = new_split(&buf, 12 + st); let o = old_name(&buf, 12 + st);
@@ -1047,6 +1079,8 @@ fn main() {
     // compressor alone (T2 against the model)
     bim_case(&mut cx, 0, &[l(&["b", "c"]), l(&["a", "c"]), l(&["x", "a", "b", "c"])], "bim:regress");
     bim_case(&mut cx, 0, &[l(&["a", "ab"]), l(&["\x01a", "ab"])], "bim:regress");
+    // a label whose 16-bit hash is 0 under a hit in slot 0: unused slots have hash 0 and parent 0
+    for zero in ["1rr", "wk7c", "nz4d", "4d0e"] { bim_case(&mut cx, 0, &[l(&["a", "com"]), l(&[zero, "com"])], "bim:regress"); }
     bim_case(&mut cx, 0, &[l(&["example", "org"]), l(&["unequal", "ORG"]), l(&["www", "Example", "org"]), vec![], l(&["org"])], "bim:regress");
     for base in [16350usize, 16358, 16359, 16360, 16370, 16371, 16372, 16383, 16384] {
         bim_case(&mut cx, base, &[l(&["a", "example"]), l(&["b", "example"]), l(&["c", "a", "example"])], "bim:boundary");
